@@ -108,6 +108,37 @@ func ruleCallers(filter func(callee string) bool) ruleFn {
 			}
 			actual[callee][caller] = site
 		}
+		// a listed interface method is also called when a concrete implementation of it is
+		// called statically (a decorator that embeds the implementation and calls it twice)
+		implOf := func(callee *ssa.Function) string {
+			if callee == nil || callee.Signature.Recv() == nil {
+				return ""
+			}
+			for key := range whoMayCall {
+				i := strings.LastIndex(key, ".")
+				if i < 0 || strings.HasPrefix(key, "(") || key[i+1:] != callee.Name() {
+					continue
+				}
+				j := strings.LastIndex(key[:i], ".")
+				if j < 0 {
+					continue
+				}
+				pkgPath, ifaceName := key[:j], key[j+1:i]
+				for _, p := range r.P.Pkgs {
+					if p.PkgPath != pkgPath || p.Types == nil {
+						continue
+					}
+					obj := p.Types.Scope().Lookup(ifaceName)
+					if obj == nil {
+						continue
+					}
+					if it, ok := obj.Type().Underlying().(*types.Interface); ok && types.Implements(callee.Signature.Recv().Type(), it) {
+						return key
+					}
+				}
+			}
+			return ""
+		}
 		for _, fn := range r.P.Funcs {
 			for _, e := range r.P.CG.Ext[fn] {
 				note(e.Name, fnName(fn), e.Site)
@@ -115,6 +146,9 @@ func ruleCallers(filter func(callee string) bool) ruleFn {
 			for _, e := range r.P.CG.Out[fn] {
 				if e.Kind == "static" {
 					note(fnName(e.Callee), fnName(fn), e.Site)
+					if key := implOf(e.Callee); key != "" && topFn(fn) != topFn(e.Callee) {
+						note(key, fnName(fn), e.Site)
+					}
 				}
 			}
 		}
@@ -873,7 +907,41 @@ func onlyMeasuresDuration(fn *ssa.Function) bool {
 							return false
 						}
 					case *ssa.DebugRef:
+					case *ssa.MakeClosure:
+						// captured by a (deferred) literal: what the literal does with it
+						fnc, ok := y.Fn.(*ssa.Function)
+						if !ok {
+							return false
+						}
+						for k, b := range y.Bindings {
+							if b != ssa.Value(al) || k >= len(fnc.FreeVars) {
+								continue
+							}
+							for _, r3 := range *fnc.FreeVars[k].Referrers() {
+								switch z := r3.(type) {
+								case *ssa.UnOp:
+									if !timeOK(z, depth+1) {
+										return false
+									}
+								case *ssa.DebugRef:
+								default:
+									return false // the literal writes the start time or hands its cell on
+								}
+							}
+						}
 					default:
+						return false
+					}
+				}
+			case *ssa.Defer, *ssa.Go:
+				// `defer logDuration(url, time.Now())`: handed to a module function that uses it the same way
+				c := x.(ssa.CallInstruction).Common()
+				sc := c.StaticCallee()
+				if sc == nil || !inModule(sc) || sc.Blocks == nil {
+					return false
+				}
+				for i, a := range c.Args {
+					if a == v && (i >= len(sc.Params) || !timeOK(sc.Params[i], depth+1)) {
 						return false
 					}
 				}
@@ -981,6 +1049,52 @@ func ruleRoutingTableWrites(r *Run) {
 			r.Check(within(topFn(fn), 0), rule, fnName(fn), "write "+what, r.P.pos(ins.Pos()),
 				"inside a setter method of the routing table (callers confined to the merge by R4a)",
 				"the routing table is written outside its setter methods: it is shared by all requests and read without a lock, so a write on the request path races with concurrent readers and changes where later requests are sent")
+		}
+	}
+	// and its inner objects do not leave the setters: a function that hands out the Fields map
+	// of an entry, or the entry itself, lets its caller write the table without a setter (third
+	// audit: `pc.TypeURLMap.Routes(typename)[fieldname] = url` on the request path)
+	for _, fn := range r.P.Funcs {
+		for _, ret := range returnsOf(fn) {
+			for _, res := range ret.Results {
+				v := unwrap(res)
+				leaks := ""
+				if fromProps(v) {
+					if _, isMap := v.Type().Underlying().(*types.Map); isMap {
+						leaks = "the Fields map of an entry"
+					}
+				}
+				if lk, ok := v.(*ssa.Lookup); ok && isTable(lk.X.Type()) {
+					leaks = "an entry (*TypeProps)"
+				}
+				if ex, ok := v.(*ssa.Extract); ok {
+					if lk, ok := ex.Tuple.(*ssa.Lookup); ok && ex.Index == 0 && isTable(lk.X.Type()) {
+						leaks = "an entry (*TypeProps)"
+					}
+				}
+				if leaks == "" {
+					continue
+				}
+				n++
+				var within func(f *ssa.Function, depth int) bool
+				within = func(f *ssa.Function, depth int) bool {
+					if setters[fnName(f)] {
+						return true
+					}
+					if depth > 3 || len(r.P.CG.In[f]) == 0 {
+						return false
+					}
+					for _, e := range r.P.CG.In[f] {
+						if e.Kind != "static" || !within(topFn(e.Caller), depth+1) {
+							return false
+						}
+					}
+					return true
+				}
+				r.Check(within(topFn(fn), 0), rule, fnName(fn), "hands out "+leaks, r.P.pos(ret.Pos()),
+					"only to the setter methods of the routing table",
+					"a function hands out "+leaks+" of the routing table: whoever receives it can write the table without going through a setter — on the request path that races with concurrent readers and changes where later requests are sent")
+			}
 		}
 	}
 	r.AtLeast(rule, "writes to the routing table", n, 3)
